@@ -101,12 +101,12 @@ def make_ids(count, size, g, awkward=True):
     return ids[:count]
 
 
-def make_db(profile, id_size, kwlen, g, relation='disjoint'):
+def make_db(profile, id_size, kwlen, g, relation='disjoint', awkward=True):
     """database {keyword: [ids]} with the given list-length profile (dict order = profile order)"""
     kws = make_keywords(len(profile), kwlen, g)
     total = sum(profile)
     if relation == 'disjoint' and (id_size > 1 or total <= 255):
-        ids = make_ids(total, id_size, g)
+        ids = make_ids(total, id_size, g, awkward)
         g2 = ids[:]
         g.shuffle(g2)
         db, c = {}, 0
@@ -115,7 +115,7 @@ def make_db(profile, id_size, kwlen, g, relation='disjoint'):
             c += n
         return db
     # shared pool: every list is a rotation-prefix of one pool (duplicates across keywords, none inside a list)
-    pool = make_ids(max(profile), id_size, g)
+    pool = make_ids(max(profile), id_size, g, awkward)
     db = {}
     for i, (w, n) in enumerate(zip(kws, profile)):
         rot = pool[i % len(pool):] + pool[:i % len(pool)]
